@@ -580,8 +580,14 @@ fn mode_cmdtable() {
             }
         }
     }
-    for v in ["FOO", "PRIVMSGX", "JOI", "0", "AUTHENTICATEX", "ÉCRIRE"] {
-        let line = format!("{} a b", v);
+    // verbs are matched ASCII case-insensitively: letters whose Unicode upper-casing yields an ASCII verb
+    // (dotless i, long s, sharp s, ligatures) do not make a known command
+    for v in [
+        "FOO", "PRIVMSGX", "JOI", "0", "AUTHENTICATEX", "ÉCRIRE", "PRıVMSG", "TOPıC", "KıCK", "nıck", "uſer", "privmſg",
+        "paß", "LIﬆ", "quıt", "ſquit", "JOıN", "lıst", "whoıs", "ıson", "kıll", "dıe", "tıme", "ınfo", "lınks", "admın",
+        "ınvıte", "notıce", "verſion", "ſtats", "nameſ", "uſerhoſt", "wallopſ", "luſerſ", "paſſ", "reſtart",
+    ] {
+        let line = format!("{} a b c d", v);
         let got = catch_unwind(AssertUnwindSafe(|| {
             let m = Message::from_shared_str(&line).unwrap();
             match Command::from_message(&m) {
